@@ -122,7 +122,8 @@ def cmd_check(name, pids, tier, via_repo):
         if wt:
             drop(wt)
         shutil.rmtree(tmp, ignore_errors=True)
-    json.dump(meta, open(os.path.join(d, "meta.json"), "w"), indent=1)
+    if not os.environ.get("SEED_EVAL_NO_RECORD"):  # robustness sweeps at other VERIF_SEED values only print
+        json.dump(meta, open(os.path.join(d, "meta.json"), "w"), indent=1)
 
 
 def main():
